@@ -126,7 +126,10 @@ def _case(job):
 def _dump_case(job):
     import pvl
     idx, text, tmpdir = job
-    m = pvl.loads(text)
+    try:
+        m = pvl.loads(text)
+    except Exception:
+        return []               # not loadable: the entry-point stage judges that, nothing to dump here
     out = []
     for enc_name in ("PVL", "ODL", "PDS3", "ISIS"):
         import pvl.encoder as E
@@ -177,7 +180,9 @@ def run(ctx, rep):
     labels = labels[::step]
     labels += ["a = \"café °\"\nb = 2\nEND", "kéy = 1\nEND", "x = (1, 2)\nEND",
                "a = \"first line\nEND\nlast line\"\nb = 2\nEND", "/* a comment\nEND\nstill the comment */\na = 1\nEND",
-               "a = 'x'\n  END  \nb = 'never read'\nEND"]
+               "a = 'x'\n  END  \nb = 'never read'\nEND",
+               "a = x-\r\n  y\r\nb = 2\r\nEND", "a = 1\r\nb = 'p q'\r\nEND",           # CR-LF line ends, one after a dash continuation
+               "a =\nEND", "a = 1\nb =\nEND", "a =\nb = 2\nc =\nEND"]                   # value-less assignments right before END
     trs = trailers(ctx.rng, ctx.thorough)
     tmpdir = tempfile.mkdtemp(prefix="pvlverif-c09-")
     try:
